@@ -137,7 +137,7 @@ def nontrivial(chk, p, r, m):
 
 
 def run(chk):
-    n = 300 if chk.tier == "quick" else 8000
+    n = 900 if chk.tier == "quick" else 8000
     chk.rule = ("random builder matrices (envs differing in variables a rule uses / does not use, overridden rules with identical commands, "
                 "`always`, non-shareable rules, build deps) through the real CLI; whole ninja file compared with the model's; oracle: for every "
                 "pair of configured builds and every source both compile: equal object path <=> identical rule block and order-only deps, "
